@@ -96,6 +96,26 @@ add("C16", "4/C16", E1,
     "smoothing condition within 0.1 %, identity for s=0 and affine data, default s = len*var, interpolating to_function.",
     "FITPACK trusted; executions with FITPACK warnings discarded (counted)")
 
+add("C08", "4/C08 + 6", E2,
+    "All sequences of the 19 concrete domain operations (10 kinds) to depth 3/4 from 5 initial series on the live Weaver; "
+    "in every state working == reference (bytes) == exact rational model of the transformed original; every reshaping "
+    "operation leaves the reference bytes-unchanged; recreate+match tail against the transformed averages; shift/scale "
+    "commute with the pipeline.",
+    "truncation bounds strictly between samples; quick rotates the 24 tail combinations over the states, thorough runs all; "
+    "histories longer than the depth bound are not covered")
+add("C09", "4/C09 + 6", E2,
+    "All programs over the whole public API (59 concrete operations, 19 kinds, 7 constructors) respecting documented "
+    "preconditions: full alphabet to depth 2/3, core alphabet to depth 3/4, README pipeline with <=1/2 deviations "
+    "(programs of <=9 operations); well-formedness, caller data, original in every state; after restore_original "
+    "observational equality with a fresh object plus 1-step bisimulation over the alphabet.",
+    "deterministic noise seam; equal observable state implies equal futures is argued (operations read only the three series) "
+    "and re-checked one step deep")
+add("C20", "4/C20", E2,
+    "Every invalid-argument class of the statement (2-6 variants each) at function level over a lattice of surrounding valid "
+    "arguments, and 38 invalid Weaver requests fired in every state reached by all programs over the core alphabet to depth "
+    "2/3 from 7 constructors: exactly ValueError, and working/reference/original bytes-, dtype- and type-identical afterwards.",
+    "only the listed classes are demanded; object identity after rejection is not")
+
 ALL = ["C%02d" % i for i in range(1, 21)]
 NOT_BUILT = "check not built yet in this session (design in DESIGN.md section 4); will be claimed once its harness exists"
 
